@@ -32,17 +32,17 @@ def _oracles(check):
 
 
 CHECKS = {
-    "C01": {"engine": "history", "profiles": ["alias"], "quick": 6000, "thorough": 400000, "level": "exploration"},
-    "C02": {"engine": "history", "profiles": ["shape"], "quick": 6000, "thorough": 400000, "level": "exploration"},
+    "C01": {"engine": "history", "profiles": ["alias"], "quick": 12000, "thorough": 400000, "level": "exploration"},
+    "C02": {"engine": "history", "profiles": ["shape"], "quick": 10000, "thorough": 400000, "level": "exploration"},
     "C03": {"engine": "history", "profiles": ["dtype", "alias", "shape", "fingerprint", "derive", "lifetime"],
-            "quick": 6000, "thorough": 400000, "level": "exploration"},
-    "C15": {"engine": "history", "profiles": ["lifetime"], "quick": 6000, "thorough": 400000, "level": "exploration"},
-    "C16": {"engine": "history", "profiles": ["fingerprint"], "quick": 6000, "thorough": 400000, "level": "exploration"},
-    "C17": {"engine": "history", "profiles": ["names"], "gen": "names", "quick": 6000, "thorough": 400000, "level": "exploration"},
-    "C18": {"engine": "history", "profiles": ["derive"], "quick": 6000, "thorough": 400000, "level": "exploration"},
-    "C08": {"engine": "c08", "quick": 1500, "thorough": 100000, "level": "fault_enumeration"},
-    "C09": {"engine": "c09", "hashseeds": True, "quick": 1200, "thorough": 60000, "level": "exploration"},
-    "C12": {"engine": "c12", "hashseeds": True, "quick": 1200, "thorough": 60000, "level": "exploration"},
+            "quick": 10000, "thorough": 400000, "level": "exploration"},
+    "C15": {"engine": "history", "profiles": ["lifetime"], "quick": 6000, "thorough": 300000, "level": "exploration"},
+    "C16": {"engine": "history", "profiles": ["fingerprint"], "quick": 12000, "thorough": 400000, "level": "exploration"},
+    "C17": {"engine": "history", "profiles": ["names"], "gen": "names", "quick": 10000, "thorough": 400000, "level": "exploration"},
+    "C18": {"engine": "history", "profiles": ["derive"], "quick": 10000, "thorough": 400000, "level": "exploration"},
+    "C08": {"engine": "c08", "quick": 8000, "thorough": 300000, "level": "fault_enumeration"},
+    "C09": {"engine": "c09", "hashseeds": True, "quick": 5000, "thorough": 150000, "level": "exploration"},
+    "C12": {"engine": "c12", "hashseeds": True, "quick": 5000, "thorough": 150000, "level": "exploration"},
 }
 
 
